@@ -592,7 +592,7 @@ func (f *STFS) OpenFile(name string, flag int, perm os.FileMode) (afero.File, er
 		return nil, config.ErrIsDirectory
 	}
 
-	return NewFile(
+	file := NewFile(
 		f.readOps,
 		f.writeOps,
 
@@ -611,7 +611,20 @@ func (f *STFS) OpenFile(name string, flag int, perm os.FileMode) (afero.File, er
 
 		f.onHeader,
 		f.log,
-	), nil
+	)
+
+	if flags.Write && flags.Truncate && hdr.Typeflag != tar.TypeDir && hdr.Size > 0 {
+		// O_TRUNC takes effect when the file is opened, not only once something is written through the handle
+		if err := file.enterWriteMode(); err != nil {
+			if file.cleanWriteBuf != nil {
+				_ = file.cleanWriteBuf()
+			}
+
+			return nil, err
+		}
+	}
+
+	return file, nil
 }
 
 func (f *STFS) Remove(name string) error {
